@@ -19,6 +19,8 @@ LEVEL_TEXT = ('static: reciprocal-pair invariant over all writers, symbolic inve
               're-base ordering and continuity pair in the tempo setters, structure of play/next_bar/next_time_on_grid. '
               'Numerics of roundup/mod and float error are not decided.')
 LEVEL_NOTE = 'polynomial normal forms over named fields; no float semantics'
+LEVEL_TEXT_ADD = ' Also: delegation-aware rebase rule, logical-root closure, or-default rule over clock.py.'
+LEVEL_TEXT = (globals().get('LEVEL_TEXT') or EXPLANATION) + LEVEL_TEXT_ADD
 TECHNIQUE = 'static analysis: symbolic normal forms (Laurent polynomials) + statement-order rules'
 
 MAP_FIELDS = ('_base_seconds', '_base_beats', '_tempo', '_beat_dur')
